@@ -11,6 +11,13 @@ just above the texel error length 1 + floor(bp per texel), lying at / before / a
 scaffold, so that its overlap result is trimmed away, awarded to the neighbouring piece, cut, or kept; with
 tagged neighbours (several tagged pieces of one haplotig) and in three groupings.  These are the inputs on which
 "pieces labelled Haplotig" and "haplotig scaffolds written" differ.
+
+And the *prefix* families: the input adjacencies are all adjacencies of the input assembly, whatever the scaffolds
+are called and in whichever order they stand.  Input assemblies of several haplotypes, told apart by a prefix of the
+contig names (HAP1_SCAFFOLD_2, hap2_ctg1a, h3_...; some scaffolds without a prefix), of multi-contig scaffolds
+(so that there are input adjacencies), the scaffolds of the haplotypes in EVERY interleaving (by haplotype, by
+chromosome HAP1_1 HAP2_1 HAP1_2 HAP2_2, and all orders between), under the null map (every scaffold whole and
+forward: 0 cuts, 0 breaks, 0 joins by the recount), every scaffold reversed, and seeded edit scripts.
 """
 
 import contextlib
@@ -282,6 +289,96 @@ def random_sliver_cases(tier, rng):
         yield {"input": inp, "map": mp, "prefix": "SUPER_", "via": pg.pick_via(inp, i)}
 
 
+# --------------------------------------------------------------------------------------------------
+# prefix families: several haplotypes in one input assembly, their scaffolds in every interleaving
+# --------------------------------------------------------------------------------------------------
+
+# (contig lengths, gaps between them): two or three contigs, so that every scaffold has input adjacencies
+PREFIX_GEOMETRIES = [
+    ((150, 40), [(10, "scaffold")]),
+    ((40, 150, 40), [(200, "scaffold"), None]),
+    ((400, 150), [None]),
+    ((40, 40, 150), [(10, "scaffold"), (20, "scaffold")]),
+    ((150, 7, 40), [(10, "scaffold"), (1, "contig")]),
+    ((1000, 40), [(25, "contig")]),
+]
+
+
+def label_orders(counts):
+    """every distinct order of counts[0] x label 0, counts[1] x label 1, ...: all interleavings of the haplotypes"""
+    labels = [k for k, c in enumerate(counts) for _ in range(c)]
+    return sorted(set(itertools.permutations(labels)))
+
+
+def prefix_scaffold(prefix, number, serial, naming):
+    """
+    scaffold `number` of the haplotype called `prefix` ('' = no prefix).  naming 'fasta': contigs named after the
+    scaffold <PREFIX>_SCAFFOLD_<n>, coordinates = position in the scaffold; 'own': contigs <prefix>_ctg<tag><a..>
+    running from 1; 'first': as 'own', but only the contig listed first carries the prefix
+    """
+    lengths, gaps = PREFIX_GEOMETRIES[serial % len(PREFIX_GEOMETRIES)]
+    strands = pg.strand_patterns(len(lengths))[(serial // 2) % 4]
+    name = f"{prefix}_SCAFFOLD_{number}" if prefix else f"scaffold_{number}"
+    sc = pg.make_scaffold(name, lengths, strands, gaps, "fasta" if naming == "fasta" else "own", tag=f"{serial}x")
+    if naming != "fasta" and prefix:
+        for j, r in enumerate(r for r in sc["rows"] if r[0] == "F"):
+            if naming == "own" or j == 0:
+                r[1] = f"{prefix}_{r[1]}"
+    return sc
+
+
+def prefix_input(prefixes, order, naming, shift=0):
+    """the input assembly whose k-th scaffold belongs to haplotype prefixes[order[k]]"""
+    seen = {}
+    inp = []
+    for k, lab in enumerate(order):
+        seen[lab] = seen.get(lab, 0) + 1
+        inp.append(prefix_scaffold(prefixes[lab], seen[lab], k + shift, naming))
+    return inp
+
+
+def whole_map(inp, bpt, strand, painted):
+    """every input scaffold as one piece in its own Pretext scaffold, in input order"""
+    scs = []
+    for k, sc in enumerate(inp):
+        (piece,) = pg.pieces_of(sc, bpt, "ceil", ())
+        scs.append([[*piece, strand if isinstance(strand, int) else strand[k % len(strand)], ["Painted"] if painted else []]])
+    return {"bpt": bpt, "scaffolds": scs}
+
+
+PREFIX_SETS = [("HAP1", "HAP2"), ("HAP1", "HAP2", ""), ("hap1", "h2", "HAP3"), ("", "ctg12")]
+
+
+def prefix_cases(tier, rng):
+    """
+    counts of scaffolds per haplotype: quick (2, 2) and (2, 1, 1); thorough every count vector of 2-3 haplotypes with
+    <= 3 scaffolds each and <= 6 in all.  Every interleaving x (null map, null map painted, all reversed, mixed
+    orientations, `n` seeded PretextView-model edit scripts).
+    """
+    quick = tier == "quick"
+    if quick:
+        plans = [((2, 2), PREFIX_SETS[0]), ((2, 1, 1), PREFIX_SETS[1]), ((1, 2), PREFIX_SETS[3])]
+    else:
+        vectors = [c for n in (2, 3) for c in itertools.product((1, 2, 3), repeat=n) if sum(c) <= 6]
+        plans = [(c, ps) for c in vectors for ps in PREFIX_SETS if len(ps) >= len(c)]
+    i = 0
+    for counts, prefixes in plans:
+        for order in label_orders(counts):
+            for naming in ("fasta", "own") if quick else ("fasta", "own", "first"):
+                i += 1
+                if quick and i % 2 and naming == "own":
+                    continue
+                inp = prefix_input(prefixes, order, naming, shift=i)
+                bpt = (10.0, 2.5, 33.3)[i % 3] if not quick else 10.0
+                maps = [whole_map(inp, bpt, 1, False), whole_map(inp, bpt, -1, i % 2 == 0)]
+                if not quick:
+                    maps += [whole_map(inp, bpt, 1, True), whole_map(inp, bpt, (1, -1, -1), False)]
+                for mp, _ in pg.scripts_for(inp, bpt, rng, 2 if quick else 4, max_cuts=2, painted_p=0.3):
+                    maps.append(mp)
+                for k, mp in enumerate(maps):
+                    yield {"input": inp, "map": mp, "prefix": "SUPER_", "via": pg.pick_via(inp, i + k)}
+
+
 def add_tags(case, rng):
     """Haplotig on three pieces in ten, Contaminant / FalseDuplicate on six in a hundred each (one rng call per piece)"""
     scs = [[[*p[:4], list(p[4])] for p in sc] for sc in case["map"]["scaffolds"]]
@@ -311,7 +408,9 @@ def _run(tier, seed, **opts):
         "with Haplotig / Contaminant / FalseDuplicate tags, seeded perturbed maps that complete, and the sliver families "
         "(enumerated: a tagged piece of 1 bp .. two texels at / before / across every row boundary of a 1-3 contig "
         "scaffold, tagged or untagged flanks, three groupings, both strands; seeded: 2-3 scaffold and sub-texel-run inputs "
-        "split within one error length of row boundaries, random tags; and perturbations of these); oracle: independent "
+        "split within one error length of row boundaries, random tags; and perturbations of these), and the prefix families "
+        "(input assemblies of 2-3 haplotypes named by contig-name prefixes, multi-contig scaffolds, every interleaving of the "
+        "haplotypes' scaffolds, under null, reversed and seeded edit maps); oracle: independent "
         "recount over unordered pairs of facing contig ends, and the haplotig removals read from the info.yaml written for "
         "the run (every case whose map carries a Haplotig / Contaminant / FalseDuplicate tag, and one in 41 of the others) "
         "against the scaffolds of the Haplotig assembly; non-trivial = distinct completed case with cuts + breaks + joins "
@@ -376,6 +475,14 @@ def _run(tier, seed, **opts):
         if rng2.random() < 0.15:
             for pc, _ in pg.perturbations(case, rng2, 1):
                 one(pc, "sliver perturbed", model=False)
+    # the prefix families have their own generator as well
+    rng3 = random.Random(seed * 1000003 + 12)
+    prefix_n = 0
+    for case in prefix_cases(tier, rng3):
+        if col.full:
+            break
+        prefix_n += 1
+        one(case, "prefix", model=False)
     return col.result(
         bounds=(
             "input: 1-3 scaffolds x 1-6 contigs, contig lengths from {1,2,7,12,40,150,400,1000}, gaps none/1/10/20/25/200, both "
@@ -385,6 +492,8 @@ def _run(tier, seed, **opts):
             f"{'' if tier == 'quick' else ', 1 bp'}, gaps none / 1 texel / 2 texels + 5{'' if tier == 'quick' else ' / 1 / 200'}, sliver lengths "
             "{1, texel/2, texel, e, e+1, 2 texels + 1} with e = 1 + floor(texel size), tag patterns (left flank, sliver, right flank) "
             f"{TAG_PATTERNS_QUICK if tier == 'quick' else TAG_PATTERNS_THOROUGH}; "
+            f"prefix scope ({prefix_n} cases): 2-3 haplotype prefixes from {PREFIX_SETS}, {'(2,2) / (2,1,1) / (1,2)' if tier == 'quick' else '1-3'} scaffolds of 2-3 contigs "
+            "each, every interleaving, null / reversed / seeded edit maps; "
             f"runs ending in an error (not judged): {stats['errors']}; per family: "
             + ", ".join(f"{k}={v}" for k, v in sorted(stats.items()) if k != "errors")
         ),
